@@ -290,60 +290,60 @@ structure RangeWF (r : RangeRun) : Prop where
   stopLate : ∀ c x, r.stop = some (c, x) → c ≤ x
   selectFair : ∀ c x, r.stop = some (c, x) → (r.ticks.filter (fun t => decide (c < t))).length ≤ cancelSlack
 
-/-! ### IntervalWithInitial (`operator_creation.go:122-172`)
+/-! ### IntervalWithInitial (`operator_creation.go:122-176`, as repaired by 6a7ef90)
 
-`ticker := time.NewTicker(initial*2)` and `timer := time.NewTimer(initial)` are created first;
-`NewTicker` PANICS for a non-positive duration, so for `initial = 0` the subscribe function panics
-before its `initial == 0` branch and `SubscribeWithContext` turns the panic into an Error
-(`observable.go:306-318`). For `initial > 0` the goroutine `select`s over the timer (value, then
-`ticker.Reset(interval)`) and the ticker (value). Until the timer branch has run, the ticker ticks
-with period `2·initial`; a tick of that first schedule that is still buffered in `ticker.C` when
-`Reset` is called stays there (module `go 1.18`: asynchronous timer channels, capacity 1) and is
-received afterwards. The environment chooses which ready case is taken and when. -/
+`ticker := time.NewTicker(math.MaxInt64)` is silent until `ticker.Reset(interval)` arms it;
+`timer := time.NewTimer(initial)`. For `initial = 0` the subscribe function itself sends value 0 and
+calls `Reset(interval)` before the goroutine starts; the timer case is then ignored (`initial != 0`).
+For `initial > 0` the goroutine `select`s over the timer (value, then `Reset(interval)`) and the
+ticker (value). `Reset` PANICS for `interval = 0`: inside Subscribe (`initial = 0`) the panic becomes an
+Error (`observable.go:306-318`); inside the goroutine it is recovered by `recoverUnhandledError` and the
+deferred `Complete` runs — so `interval > 0` is a precondition of everything below.
+(Before 6a7ef90 the ticker was `NewTicker(initial*2)`: `initial = 0` panicked, and for
+`interval > initial` a tick of that first schedule raced the initial timer.) -/
 
 inductive IwiEv
   | timer (t : Time)      -- the `timer.C` case is taken at `t`
-  | oldTick (t : Time)    -- a tick of the `2·initial` schedule is taken at `t`
-  | newTick (t : Time)    -- a tick of the schedule started by `Reset(interval)` is taken at `t`
+  | tick (t : Time)       -- the `ticker.C` case is taken at `t`
 deriving Repr
 
 structure IwiSt where
   now : Time
   v : Nat                  -- next value
+  timerDone : Bool         -- the one-shot timer has been received
   reset : Option Time      -- instant of `ticker.Reset(interval)`
-  oldLb : Time             -- the next tick of the first schedule is not produced before this
-  stale : Bool             -- the tick left in the channel by the first schedule has been received
-  fresh : Bool             -- a tick of the second schedule has been received
-  newLb : Time             -- the next tick of the second schedule is not produced before this
+  newLb : Time             -- the next tick is not produced before this
   need : Time              -- `sub + initial + v·interval`: what C16 asks for value `v`
+  ended : Option TN        -- `Reset(0)` panicked: the terminal that follows
   out : List (Time × Nat × Time)   -- instant, value, bound asked
 deriving Repr
-
-def iwiInit (sub i : Nat) : IwiSt :=
-  { now := sub, v := 0, reset := none, oldLb := sub + 2 * i, stale := false, fresh := false, newLb := 0, need := sub + i, out := [] }
 
 def IwiSt.emit (s : IwiSt) (t : Time) (p : Nat) : IwiSt :=
   { s with now := t, out := s.out ++ [(t, s.v, s.need)], v := s.v + 1, need := s.need + p }
 
+/-- `ticker.Reset(p)` at instant `t` (after a value was sent): arms the ticker, or panics for `p = 0` -/
+def IwiSt.armAt (s : IwiSt) (t : Time) (p : Nat) (onPanic : TN) : IwiSt :=
+  if p = 0 then { s with ended := some onPanic } else { s with reset := some t, newLb := t + p }
+
+/-- the state when the goroutine starts; `first` = instant of the synchronous value 0 when `initial = 0` -/
+def iwiInit (sub i p : Nat) (first : Time) : IwiSt :=
+  let s0 : IwiSt := { now := sub, v := 0, timerDone := false, reset := none, newLb := 0, need := sub + i, ended := none, out := [] }
+  if i = 0 then (s0.emit first p).armAt first p (.error errOther) else s0
+
 /-- one `select` iteration; `none` when the environment's choice would need a timer or a tick
-    earlier than asked (or time running backwards, or a second firing of the one-shot timer) -/
+    earlier than asked (or time running backwards, a second firing of the one-shot timer, or an event
+    after the goroutine died) -/
 def iwiStep (sub i p : Nat) (s : IwiSt) : IwiEv → Option IwiSt
   | .timer t =>
-    if s.reset.isNone ∧ s.now ≤ t ∧ sub + i ≤ t then
-      some { (s.emit t p) with reset := some t, newLb := t + p }
+    if s.timerDone = false ∧ s.ended.isNone ∧ s.now ≤ t ∧ sub + i ≤ t then
+      if i = 0 then some { s with now := t, timerDone := true }     -- `ok && initial != 0` is false
+      else some { ((s.emit t p).armAt t p .complete) with timerDone := true }
     else none
-  | .oldTick t =>
+  | .tick t =>
     match s.reset with
-    | none =>
-      if s.now ≤ t ∧ s.oldLb ≤ t then some { (s.emit t p) with oldLb := s.oldLb + 2 * i } else none
-    | some r =>
-      -- produced before the Reset, still buffered: at most one, and before any tick of the new schedule
-      if s.now ≤ t ∧ s.stale = false ∧ s.fresh = false ∧ s.oldLb ≤ r then some { (s.emit t p) with stale := true } else none
-  | .newTick t =>
-    match s.reset with
-    | none => none
+    | none => none                                                   -- the ticker is silent until Reset
     | some _ =>
-      if s.now ≤ t ∧ s.newLb ≤ t then some { (s.emit t p) with fresh := true, newLb := s.newLb + p } else none
+      if s.ended.isNone ∧ s.now ≤ t ∧ s.newLb ≤ t then some { (s.emit t p) with newLb := s.newLb + p } else none
 
 def iwiRunFrom (sub i p : Nat) : IwiSt → List IwiEv → Option IwiSt
   | s, [] => some s
@@ -355,19 +355,20 @@ structure IwiRun where
   i : Nat
   p : Nat
   sub : Time
+  /-- instant of the synchronous first value (only used when `i = 0`) -/
+  first : Time
   evs : List IwiEv
   stop : Option (Time × Time)
   unsub : Option Time
 
 /-- `none`: the environment's choices are not possible (a timer or tick earlier than asked) -/
 def iwiTrace (r : IwiRun) : Option TimedTrace :=
-  if r.i = 0 then
-    -- NewTicker(0) panics inside the subscribe function: Error, nothing else
-    some { sub := r.sub, emits := [], dels := [Ev.at r.sub (.error errOther)], cut := stopCut r.stop r.unsub }
+  if r.first < r.sub then none
   else
-    (iwiRunFrom r.sub r.i r.p (iwiInit r.sub r.i) r.evs).map fun s =>
+    (iwiRunFrom r.sub r.i r.p (iwiInit r.sub r.i r.p r.first) r.evs).map fun s =>
       { sub := r.sub, emits := []
-        dels := down r.unsub (s.out.map (fun o => Ev.at o.1 (.next (o.2.1 : Int))) ++ stopAttempt r.stop)
+        dels := down r.unsub (s.out.map (fun o => Ev.at o.1 (.next (o.2.1 : Int)))
+                 ++ (s.ended.map (Ev.at s.now)).toList ++ stopAttempt r.stop)
         cut := stopCut r.stop r.unsub }
 
 /-! ### Timeout (`operator_utility.go:437-477`)
